@@ -43,48 +43,6 @@ class ProjectPanic(BaseException):
 
 
 _THREAD_END_CLASSES = {"SystemExit": SystemExit, "GeneratorExit": GeneratorExit, "CustomBase": ProjectPanic, "exc": RuntimeError}
-_EMPTY_STEP = []
-
-
-def empty_step_is_a_step():
-    """Probe of the REAL Session (cached): `set_step(""); log; set_step("x"); log` — does the untitled step get its
-    StepEnd like any other step?  The unchanged session.py tests the TRUTH VALUE of the description (`_end_step_if_any:
-    if self.cursor.step:`, `end_step: assert self.cursor.step`): the step "" is started, logged into and never ended
-    (finding D39, fixes/D39-empty-step-description.diff).  Model M3 is the repaired behaviour; generators use "" only
-    when this probe says True, the corpus witnesses always."""
-    if _EMPTY_STEP:
-        return _EMPTY_STEP[0]
-    import lemoncheesecake.events as E
-    import lemoncheesecake.session as S
-    from lemoncheesecake.reporting import Report
-    from lemoncheesecake.testtree import BaseTest
-    fired = []
-
-    class EM(E.EventManager):
-        def fire(self, event):
-            fired.append(event)
-    tmp = tempfile.mkdtemp(prefix="lccverif-probe-")
-    old = S.Session._instance
-    try:
-        session = S.Session(EM.load(), tmp, Report())
-        S.Session._instance = session
-        node = R._node_chain(["s", "t"], md_of("t"), BaseTest)
-        session.start_test(node)
-        session.set_step("")
-        session.log_info("x")
-        session.set_step("next")
-        session.log_info("y")
-        session.end_test(node)
-        ok = any(isinstance(e, E.StepEndEvent) and e.step == "" for e in fired)
-    except Exception:
-        ok = False
-    finally:
-        S.Session._instance = old
-        shutil.rmtree(tmp, ignore_errors=True)
-    _EMPTY_STEP.append(ok)
-    return ok
-
-
 def _loc_key(loc):
     return (loc["k"], tuple(loc.get("path") or ()))
 
@@ -303,7 +261,7 @@ def gen_ops(rng, chaos=0.05):
         if tid in last_desc and rng.random() < 0.35:
             desc = last_desc[tid]
         elif rng.random() < 0.08:
-            desc = rng.choice([" ", "two\nlines", "\n", "\t"] + ([""] * 2 if empty_step_is_a_step() else []))
+            desc = rng.choice(["", "", " ", "two\nlines", "\n", "\t"])
         last_desc[tid] = desc
         return {"tid": tid, "op": "setStep", "desc": desc}
 
@@ -312,8 +270,8 @@ def gen_ops(rng, chaos=0.05):
         nxt_thread[0] += 1
         end = {"tid": new, "op": "threadEnd"}
         if rng.random() < 0.3:
-            # the thread's target does not return: it raises — sys.exit(), GeneratorExit, a project's BaseException
-            # (nothing is logged), an Exception (`Thread.run` logs an error) — and `Thread.run`'s `finally` ends the step
+            # the thread's target does not return: it raises — sys.exit() (nothing is logged), GeneratorExit, a project's
+            # BaseException, an Exception (`Thread.run` logs an error) — and `Thread.run`'s `finally` ends the step
             end["how"] = rng.choice(THREAD_ENDS)
         inner = [{"tid": new, "op": "threadRun"}] + body_ops(new, depth + 1) + [end]
         return [{"tid": tid, "op": "threadCreate", "new": new}, ("spawned", inner)]
@@ -665,7 +623,7 @@ class SessionStream(C.Stream):
                 new = op["new"]
                 # precondition of lcc.Thread (always true when the runner calls user code): a step is current;
                 # otherwise Thread.run's epilogue asserts.  Classified as noStep at creation, like the model.
-                assert session.cursor.step, "lcc.Thread created outside any step"
+                assert session.cursor.step is not None, "lcc.Thread created outside any step"
                 q = queue.Queue()
                 ack = queue.Queue()
 
@@ -721,9 +679,9 @@ class SessionStream(C.Stream):
                     st = ("err", died[th]) if th in died else ("ok", None)
                     if how and how != "exc" and died.get(th) == _THREAD_END_CLASSES[how].__name__:
                         st = ("ok", None)       # the thread died of what its target raised, AFTER Thread.run's epilogue
-                    if how == "exc":
-                        # the model sees two calls: the error log of `except Exception` (which the real thread has issued in
-                        # any case), then the epilogue — which may be the call that fails (AssertionError: no started step)
+                    if how and how != "SystemExit":
+                        # the model sees two calls: the error log of `except Exception` / `except BaseException` (which the real
+                        # thread has issued in any case: everything but SystemExit is logged, fix D40), then the epilogue — which may be the call that fails (AssertionError: no started step)
                         accepted += 1
                 else:
                     if tid in lccthreads and lccthreads[tid][0].is_alive():
@@ -772,8 +730,9 @@ class SessionStream(C.Stream):
             return o
         ops = []
         for op in case["ops"]:
-            if op["op"] == "threadEnd" and op.get("how") == "exc":
-                # `Thread.run`: `except Exception: self._session.log_error(<traceback>)`, then `finally: end_step()`
+            if op["op"] == "threadEnd" and op.get("how") not in (None, "SystemExit"):
+                # `Thread.run`: `except Exception` / `except BaseException` (not SystemExit): `self._session.log_error(<traceback>)`,
+                # then `finally: end_step()`
                 ops.append({"tid": op["tid"], "op": "log", "level": "error", "msg": TRACEBACK})
             ops.append(op)
         return {"ops": [w(op) for op in ops]}
